@@ -258,13 +258,33 @@ func (p *parser) parseChar(c byte) bool {
 }
 
 func (p *parser) parseUint32() (uint32, bool) {
-	start := p.pos
-	// go to the next space
-	for p.pos < len(p.data) && isAlnum(p.data[p.pos]) {
-		p.pos++
+	// as upstream, which reads the number with strtol (hb_parse_int) : leading spaces
+	// and a sign are accepted (-1 gives a "big number"), and nothing is consumed on failure
+	pos := p.pos
+	for pos < len(p.data) && isSpace(p.data[pos]) {
+		pos++
 	}
-	out, err := strconv.Atoi(string(p.data[start:p.pos]))
-	return uint32(out), err == nil
+	neg := false
+	if pos < len(p.data) && (p.data[pos] == '+' || p.data[pos] == '-') {
+		neg = p.data[pos] == '-'
+		pos++
+	}
+	start := pos
+	var out uint64
+	for ; pos < len(p.data) && '0' <= p.data[pos] && p.data[pos] <= '9'; pos++ {
+		out = out*10 + uint64(p.data[pos]-'0')
+		if out > math.MaxInt64 { // ERANGE
+			return 0, false
+		}
+	}
+	if pos == start {
+		return 0, false
+	}
+	if neg {
+		out = -out
+	}
+	p.pos = pos
+	return uint32(out), true
 }
 
 func (p *parser) parseBool() (uint32, bool) {
@@ -276,10 +296,10 @@ func (p *parser) parseBool() (uint32, bool) {
 	}
 	data := string(p.data[startPos:p.pos])
 
-	/* CSS allows on/off as aliases 1/0. */
-	if data == "on" {
+	/* CSS allows on/off as aliases 1/0 (upstream compares the lowered bytes). */
+	if len(data) == 2 && toLower(data[0]) == 'o' && toLower(data[1]) == 'n' {
 		return 1, true
-	} else if data == "off" {
+	} else if len(data) == 3 && toLower(data[0]) == 'o' && toLower(data[1]) == 'f' && toLower(data[2]) == 'f' {
 		return 0, true
 	} else {
 		return 0, false
